@@ -144,10 +144,16 @@ pub fn record(args: &[String]) -> i32 {
     // the repository's fixture dictionary with its own matrix / lexicon sources
     let conn = gen::matrix_rows("/repo/sudachi/tests/resources/matrix_10x10.def");
     let lex = json!([gen::csv_params("/repo/sudachi/tests/resources/lex.csv"), gen::csv_params("/repo/sudachi/tests/resources/user1.csv"), gen::csv_params("/repo/sudachi/tests/resources/user2.csv")]);
+    let keys = vec![json!(gen::csv_keys("/repo/sudachi/tests/resources/lex.csv")), json!(gen::csv_keys("/repo/sudachi/tests/resources/user1.csv")), json!(gen::csv_keys("/repo/sudachi/tests/resources/user2.csv"))];
     for w in tok::fixture_worlds() {
         let mut wl = lex.as_array().unwrap().clone();
         wl.extend(w.meta["extra_lex"].as_array().unwrap().iter().cloned());
-        tr.emit(json!({"ev": "world", "run": run + 1, "name": w.name, "conn": conn, "lex": wl}));
+        let mut wk = keys.clone();
+        if !w.meta["extra_lex"].as_array().unwrap().is_empty() {
+            // the kana-spelled user dictionary of tok::fixture_worlds
+            wk.push(json!([{"key": cps("とうきょうと"), "lid": 6}, {"key": cps("きょうとふ"), "lid": 6}]));
+        }
+        tr.emit(json!({"ev": "world", "run": run + 1, "name": w.name, "conn": conn, "lex": wl, "dicts": wk}));
         let mut t = StatefulTokenizer::new(w.dict.clone(), Mode::C);
         for (k, s) in crate::texts::FIXTURE_SENTENCES.iter().enumerate() {
             run += 1;
